@@ -23,6 +23,14 @@ CHECKS = {
   text="Proof by monitor (lock-invariant) reasoning, valid under every interleaving and with spurious wake-ups: for buffered channels every critical section of ChanSend/ChanTrySend/ChanRecv/chanTryRecv/ChanClose/ChanLen preserves the ring-buffer invariant (0<=len<=cap, 0<=getp<cap, fixed buffer), a successful send writes exactly the slot (getp+len) mod cap with the sender's bytes and increments len, a successful receive delivers slot getp, advances getp and decrements len, nothing else in the buffer changes, a receive yields ok=false only when closed and empty; protected fields are only touched under the lock.",
   note="Not decided: unbuffered rendezvous protocol, Select/TrySelect commitment, every liveness clause (wake-ups, no avoidable deadlock), the lemma from ring-buffer steps to the abstract FIFO sequence (argued in DESIGN.md). Trusted: pthread mutual exclusion, memcpy, notifyOps touches only selectOp state, eltSize consistent across calls (< 2^16, cap < 2^28), chanbuf(p) fixed by NewChan.",
   ref="DESIGN.md §3 C10"),
+"C11": dict(
+  text="Proof (monitor reasoning + ghost accounting of atomic operations, every interleaving): semaAcquire returns only after exactly one successful CompareAndSwap(addr, v, v-1) with v != 0 and performs no other write to the semaphore word (no acquire without a permit: the safety half of Mutex/RWMutex/WaitGroup built on it); semaRelease adds exactly one permit; waiter count only touched under its lock and every lock released on exit; notifyListAdd hands out ticket wait-1; notifyListWait returns only when its ticket has been notified (wrap-aware less(t, notify)); NotifyOne advances notify by at most one, NotifyAll stores once.",
+  note="Not decided: go-statement lowering, atomics lowering tables and total order of atomics (hardware/LLVM memory model), every liveness clause (admission of waiters, wake-ups), Once/WaitGroup code of the standard library itself. Trusted: atomics indivisible, pthread mutual exclusion, getSemaState/getNotifyState return the unique non-nil state object.",
+  ref="DESIGN.md §3 C11"),
+"C18": dict(
+  text="Proof that (*Loader).mergeConfig implements the property's merge law for EVERY field of targets.Config as it is in the working tree: the contract is generated from the struct type at check time (string: nearest non-empty definer wins; bool: or; []string: concatenation in order, element-wise; Name and *src unchanged; nothing else written). A field added and not merged, a dropped if, or replace-instead-of-append fails that field's obligation.",
+  note="Not decided yet: fold order over the inheritance forest in resolveInheritance/Load and the missing/cyclic-parent clause (DESIGN.md C18); JSON decoding (encoding/json) trusted. Assumes dst's list arrays are disjoint from src's arrays and both objects (true in resolveInheritance where dst is fresh); strings compared by representation; Go append semantics trusted.",
+  ref="DESIGN.md §3 C18"),
 "C05": dict(
   text="Proof (all inputs, all loop iterations via invariants) of functional contracts taken from the property: append/grow/copy/slice header arithmetic, storage sharing, byte-exact prefix/appended contents incl. overlap and zero-size elements; UTF-8 decode/encode against Unicode Table 3-6/3-7 spec functions and their round-trip lemma; string concat/equality/ordering/iteration/conversions.",
   note="Trusted: libc memcpy/memmove/memset contracts (memcpy requires non-overlap: obligation), allocator freshness, clite.Advance, go 'make'. GrowSlice/SliceAppend/SliceCopy are verified under stated size bounds (etSize < 2^16, cap,num < 2^28) in int mode with explicit no-overflow obligations; typed and raw memory views assumed disjoint. StringToRunes/StringFromRunes: see evidence (loop safety only).",
